@@ -474,6 +474,10 @@ func (a *align) RemoveMajorityCharacterSites(cutoff float64, ends, ignoreGaps, i
 	kept = make([]int, 0)
 	rm = make([]int, 0)
 
+	if cutoff < 0 || cutoff > 1 {
+		cutoff = 0
+	}
+
 	length := a.Length()
 	toremove := make([]int, 0, 10)
 	// To remove only positions with this character at start and ends positions
